@@ -131,6 +131,52 @@ Proof.
       exists keep. rewrite <- app_assoc in Hd, Hk. cbn in Hd, Hk. auto.
 Qed.
 
+(** ---- the loops as coded compute the closed forms ---- *)
+Lemma has_repos_acc : forall (p : repo -> bool) (l : list repo) a b,
+  fold_left (fun st r => let b := p r in (fst st || b, snd st && b)) l (a, b) = (a || existsb p l, b && forallb p l).
+Proof.
+  intros p l. induction l as [|r l IH]; intros a b; cbn.
+  - now rewrite orb_false_r, andb_true_r.
+  - rewrite IH. now rewrite orb_assoc, andb_assoc.
+Qed.
+
+(** hasReposForPredicate: any = "some repository of the shard satisfies the predicate", all = "every one does" *)
+Lemma has_repos_spec : forall p l, has_repos p l = (existsb p l, forallb p l).
+Proof. intros p l. unfold has_repos. now rewrite has_repos_acc. Qed.
+
+Lemma select_loop_acc : forall p l acc b,
+  fold_left (fun st s =>
+               if negb (sh_known s) then (fst st ++ [s], false)
+               else let '(any, all) := has_repos p (sh_repos s) in
+                    if any then (fst st ++ [s], snd st && all) else st) l (acc, b)
+  = (acc ++ filter (fun s => negb (sh_known s) || existsb p (sh_repos s)) l,
+     b && forallb (fun s => sh_known s && forallb p (sh_repos s))
+                  (filter (fun s => negb (sh_known s) || existsb p (sh_repos s)) l)).
+Proof.
+  intros p l. induction l as [|s l IH]; intros acc b; cbn [fold_left filter].
+  - cbn. now rewrite app_nil_r, andb_true_r.
+  - rewrite has_repos_spec. destruct (sh_known s) eqn:Ek; cbn [negb orb fst snd].
+    + destruct (existsb p (sh_repos s)) eqn:Ee.
+      * rewrite IH. cbn [forallb]. rewrite Ek. cbn [andb]. rewrite <- app_assoc. cbn [app]. now rewrite andb_assoc.
+      * apply IH.
+    + rewrite IH. cbn [forallb]. rewrite Ek. cbn [andb]. rewrite <- app_assoc. cbn [app]. now rewrite andb_false_r.
+Qed.
+
+Lemma select_loop_spec : forall p shards,
+  select_loop p shards =
+  (filter (fun s => negb (sh_known s) || existsb p (sh_repos s)) shards,
+   forallb (fun s => sh_known s && forallb p (sh_repos s))
+           (filter (fun s => negb (sh_known s) || existsb p (sh_repos s)) shards)).
+Proof. intros p shards. unfold select_loop. now rewrite select_loop_acc. Qed.
+
+Lemma do_select_coded_eq : forall guard post pre shards,
+  do_select_coded guard shards pre post = do_select guard shards pre post.
+Proof.
+  intros guard post. induction post as [|c rest IH]; intros pre shards; cbn [do_select_coded do_select]; [reflexivity|].
+  destruct (child_pred c) as [p|]; [|apply IH].
+  rewrite select_loop_spec. reflexivity.
+Qed.
+
 (** ---- Search: selection + rewrite = union of the per-shard answers ---- *)
 Lemma search_shard_none : forall cs s, pt_none no_tr cs s -> search_shard cs s = [].
 Proof.
@@ -159,6 +205,7 @@ Qed.
 Lemma select_sound : forall shards cs, sharded_search shards cs = union_search shards cs.
 Proof.
   intros shards cs. unfold sharded_search, sharded_search_gen, union_search, select_gen.
+  rewrite do_select_coded_eq.
   destruct (do_select true shards [] cs) as [sel cs'] eqn:E.
   destruct (do_select_spec no_tr cs [] shards sel cs' E) as (keep & -> & Hd & Hk). cbn in Hd, Hk.
   apply flat_map_filter_eq.
@@ -200,6 +247,7 @@ Qed.
 Lemma list_sound : forall shards cs, sharded_list shards cs = union_list shards cs.
 Proof.
   intros shards cs. unfold sharded_list, sharded_list_gen, union_list, select_gen.
+  rewrite do_select_coded_eq.
   destruct (do_select true shards [] cs) as [sel cs'] eqn:E.
   destruct (do_select_spec no_tr cs [] shards sel cs' E) as (keep & -> & Hd & Hk). cbn in Hd, Hk.
   f_equal. apply flat_map_filter_eq.
